@@ -114,6 +114,7 @@ static uint64_t fnv(const std::vector<uint32_t> &v)
 struct Stats {
 	unsigned long evaluations = 0, nontrivial = 0, tape_sum = 0, tape_max = 0;
 	std::map<std::string, unsigned long> classes;
+	std::map<std::string, unsigned long> sums;
 	std::unordered_set<uint64_t> distinct;
 	size_t distinct_cap = 6000000;
 	bool distinct_capped = false;
@@ -131,6 +132,7 @@ static bool g_have_fail = false;
 struct CaseOut {
 	Tape t;
 	std::vector<const char *> classes;
+	std::vector<std::pair<const char *, unsigned long>> sums;
 	bool nontrivial = false, failed = false;
 	std::string msg, log;
 };
@@ -149,6 +151,7 @@ static void execute(const uint32_t *raw, size_t n, bool enumerating, bool want_l
 	h_run(c);
 	g_cur = nullptr;
 	o.classes = c.classes;
+	o.sums = c.sums;
 	o.nontrivial = c.nontrivial;
 	o.failed = c.failed;
 	o.msg = c.failmsg;
@@ -163,6 +166,8 @@ static void account(const CaseOut &o)
 	g_st.tape_max = std::max<unsigned long>(g_st.tape_max, t.taken.size());
 	for (auto k : o.classes)
 		g_st.classes[k]++;
+	for (auto &kv : o.sums)
+		g_st.sums[kv.first] += kv.second;
 	if (!g_st.have_first) {
 		g_st.have_first = true;
 		g_st.s_first = t.taken;
@@ -282,6 +287,12 @@ static void write_stats(const char *mode, bool exhaustive, bool enumerating, uns
 	  << ",\"tape_max\":" << g_st.tape_max << ",\"classes\":{";
 	bool first = true;
 	for (auto &kv : g_st.classes) {
+		f << (first ? "" : ",") << "\"" << jesc(kv.first) << "\":" << kv.second;
+		first = false;
+	}
+	f << "},\"sums\":{";
+	first = true;
+	for (auto &kv : g_st.sums) {
 		f << (first ? "" : ",") << "\"" << jesc(kv.first) << "\":" << kv.second;
 		first = false;
 	}
